@@ -136,6 +136,20 @@ def determinism_rule(rep):
                             isinstance(v, ast.Call) and (ast.unparse(v.func) in ('set', 'frozenset')
                                                         or ast.unparse(v.func).endswith('.freevars'))):
                         set_names.add(node.targets[0].id)
+            def is_set_value(v):
+                return isinstance(v, (ast.Set, ast.SetComp)) or (
+                    isinstance(v, ast.Call) and (ast.unparse(v.func) in ('set', 'frozenset')
+                                                 or ast.unparse(v.func).endswith('.freevars')))
+            for node in ast.walk(fn):
+                # tuple assignment `rules, ignored = [], set()`; anything `.add()`-ed to is a set as well
+                if isinstance(node, ast.Assign) and isinstance(node.targets[0], ast.Tuple) \
+                        and isinstance(node.value, ast.Tuple) and len(node.targets[0].elts) == len(node.value.elts):
+                    for t, v in zip(node.targets[0].elts, node.value.elts):
+                        if isinstance(t, ast.Name) and is_set_value(v):
+                            set_names.add(t.id)
+                if isinstance(node, ast.Call) and isinstance(node.func, ast.Attribute) and node.func.attr == 'add' \
+                        and isinstance(node.func.value, ast.Name) and len(node.args) == 1:
+                    set_names.add(node.func.value.id)
             for node in ast.walk(fn):
                 if isinstance(node, ast.Call) and isinstance(node.func, ast.Name) and node.func.id in ('id', 'hash') \
                         and fname != 'assign_id':
